@@ -308,7 +308,7 @@ def group_cases(g, thorough, rng):
                 st.append((f"select id, {echo}, {sel} from t{where}",
                            {"ctx": ctx, "ids": 1, "echo": True, "outs": [(i, "val") for i in ch], "idset": ("mod3",) if ctx == "sel" else ("all",)}))
         elif ctx == "pred":
-            for i in fidx:
+            for i in (fidx if thorough or len(fidx) <= 6 else sorted(rng.sample(fidx, 6))):
                 f = g.fams[i]
                 e = f.sql(plain)
                 w = e if f.boolean else f"{e} is not null"
@@ -350,7 +350,9 @@ def group_cases(g, thorough, rng):
                 sel = ", ".join(g.fams[i].sql(amap) for i in ch)
                 st.append((f"select x.id, {ech}, {sel} from t x join t y on x.id = y.id",
                            {"ctx": ctx, "ids": 1, "echo": True, "outs": [(i, "val") for i in ch], "idset": ("all",)}))
-            for i in fidx:
+            bf = [i for i in fidx if g.fams[i].boolean]
+            must = [i for i in bf if g.fams[i].name in ("=", "is_not_distinct_from")]
+            for i in (bf if thorough or len(bf) <= 5 else sorted(set(must + rng.sample(bf, 4)))):
                 f = g.fams[i]
                 if f.boolean:
                     e = f.sql(amap)
@@ -571,6 +573,9 @@ def judge_case(chk, S, case, descs, res, retry_out):
             f = g.fams[fis[0]] if fis else None
             if st["outcome"] == "panic":
                 sig = outcome_signature(st)
+                import os as _os
+                if _os.environ.get("C05_DEBUG"):
+                    print("PANIC", cid, sql[:300], st.get("panic_msg"), flush=True)
                 chk.violation(sig, f"{cid}: {sql[:600]} -> panic {st.get('panic_msg')} @ {st.get('panic_loc')}", {"cases": [case]})
             elif st["outcome"] == "error":
                 msg = (st.get("error") or "").split("\n")[0]
@@ -807,18 +812,6 @@ def pair_rows(A, B, rng, limit, third=None):
     return [(a, b, rng.choice(third)) for a, b in pairs]
 
 
-def cmp_diag(op):
-    def d(py, got):
-        a, b = py[0], py[1]
-        if isinstance(a, int) and isinstance(b, int) and not isinstance(a, bool) and isinstance(got, bool):
-            if R.cmp_exact(op, float(a), float(b)) == got:
-                return {"as": "double"}
-            if R.cmp_exact(op, R.f32r(float(a)), R.f32r(float(b))) == got:
-                return {"as": "real"}
-        return None
-    return d
-
-
 def lossy_diag(f):
     """Is a wrong comparison-derived value explained by comparing integers as DOUBLE / REAL?"""
     def d(py, raw, tr, rid):
@@ -1007,6 +1000,7 @@ def run_groups(chk, groups, rng, thorough, wall_s, extra_cases=()):
     chk.count("statements", sum(len(c["steps"]) for c in allcases))
     chk.extra["_last_results"] = results
     global _W_GROUPS, _W_META, _W_RESULTS
+    _t1 = _t.time()
     _W_GROUPS = {g.gid: g for g in groups}
     _W_META = meta_by_group
     _W_RESULTS = results
@@ -1044,6 +1038,7 @@ def run_groups(chk, groups, rng, thorough, wall_s, extra_cases=()):
             case = cs[0][0]
             chk.sample({"group": g.gid, "signature": g.sig, "families": [f.name for f in g.fams][:40], "rows": g.nrows, "sql": case["steps"][-1]["sql"][:300]})
     _W_RESULTS = None
+    chk.extra["judge_wall_s"] = round(chk.extra.get("judge_wall_s", 0) + _t.time() - _t1, 1)
     return retry
 
 
@@ -1155,6 +1150,12 @@ def run(chk):
     res2 = chk.extra.pop("_last_results", {})
     if doc_cases:
         judge_doc_examples(chk, doc_cases, res2)
+    if not only:
+        for ctx in CONTEXTS:
+            chk.floor(chk.counters.get("values/" + ctx, 0) > 1000, f"fewer than 1000 values judged in context {ctx}")
+        chk.floor(chk.evaluations > 500000, "fewer than 500000 values judged")
+        chk.floor(chk.counters.get("doc_examples_checked", 0) >= 40, "fewer than 40 documented examples checked")
+    chk.extra["contexts"] = list(CONTEXTS)
 
 
 # ---- boolean logic ---------------------------------------------------------------------------
@@ -1267,8 +1268,8 @@ def build_arith_groups(rng, thorough):
         PN = P + [vnull(t)]
         allp = [(a, b) for a in PN for b in PN]
 
-        def pick(ok, ok1=None):
-            rows = [(a, b) for a, b in allp if (a.py is None or b.py is None or ok(a.py, b.py)) and (ok1 is None or ok1(a.py))]
+        def pick(ok, ok1=None, okb=None):
+            rows = [(a, b) for a, b in allp if (a.py is None or b.py is None or ok(a.py, b.py)) and (ok1 is None or ok1(a.py)) and (okb is None or okb(b.py))]
             rng.shuffle(rows)
             return rows[:lim]
         rows = pick(lambda a, b: in_t(t, a + b) and in_t(t, a * b))
@@ -1284,7 +1285,7 @@ def build_arith_groups(rng, thorough):
                      Fam("neg_neg", "- -{a}", lambda py: Exact(py[0]))]
         fams.append(Fam("abs", "abs({a})", lambda py: NULL if py[0] is None else Exact(abs(py[0]))))
         groups.append(Group(f"arith/{t}/subneg", f"{t},{t}", [t, t], rows, fams, const_ok=lambda p, v: p == 1 and v.py == 0))
-        rows = pick(lambda a, b: b != 0 and not (signed and a == lo and b == -1))
+        rows = pick(lambda a, b: b != 0 and not (signed and a == lo and b == -1), okb=lambda b: b != 0)
         groups.append(Group(f"arith/{t}/divrem", f"{t},{t}", [t, t], rows,
                             [arith_fam("/", "{a} / {b}", "/", t, t), arith_fam("%", "{a} % {b}", "%", t, t),
                              arith_fam("div", "div({a}, {b})", "/", t, t), arith_fam("rem", "rem({a}, {b})", "%", t, t)],
@@ -1685,7 +1686,7 @@ def build_precedence_groups(rng, thorough):
             boolean = t.typ == "b"
             for tm in (mn, fl):
                 f = Fam("precedence", tm, ref, boolean=boolean)
-                if " and " in tm and " or " in tm:
+                if " or " in tm:     # (NOT IN / BETWEEN expand to conjunctions)
                     # equal literals are equal expressions: the recorded absorption rewrite may apply in the literal context
                     f.ctx_diag = lambda ctx, py: {"kind": "fixed-case", "case": "optimizer-distributive-or-absorption"} if ctx == "lit" else None
                 fams.append(f)
